@@ -127,9 +127,9 @@ def _parse(r):
     if r.exit not in (0, 10, 11, 12, 13):
         if r.exit == -9:
             raise TlcError("TLC timed out:\n" + r.out[-3000:])
-        raise TlcError("TLC failed (exit %s):\n%s" % (r.exit, r.out[-6000:]))
+        raise TlcError("TLC failed (exit %s):\n%s" % (r.exit, r.out[-1800:]))
     if r.exit in (10,):
-        raise TlcError("TLC assumption failed:\n" + r.out[-6000:])
+        raise TlcError("TLC assumption failed:\n" + r.out[-1800:])
 
 
 def printed_tuples(r, tag):
